@@ -898,6 +898,10 @@ func (e *SEnv) evalCall(n *SCall) Val {
 		return specBool(And(cs...))
 	case "ipay": // identity of the object held by an interface value (its payload reference)
 		a := e.eval(n.Args[0])
+		if a.T == nil && len(a.C) == 1 && strings.HasPrefix(a.C[0].S, "nevercalled") {
+			// lastret() of a call this function never makes (untyped): an arbitrary identity
+			return specInt(Fresh("nevercalled", SInt))
+		}
 		if a.T == nil || !isIface(a.T) {
 			sfail("ipay needs an interface value")
 		}
